@@ -22,20 +22,23 @@ fn main() {
     let prop = args.pos.first().cloned().unwrap_or_default();
     vcore::panics::install(!args.flag("loud"));
     let mut rep = Report::new(&prop.to_uppercase(), args.seed());
-    match prop.as_str() {
-        "c01" => c01::run(&args, &mut rep),
-        "c04" => c04::run(&args, &mut rep),
-        "c08" => c08::run(&args, &mut rep),
-        "c09" => c09::run(&args, &mut rep),
-        "c10" => c10::run(&args, &mut rep),
-        "c11" => c11::run(&args, &mut rep),
-        "c12" => c12::run(&args, &mut rep),
-        "c13" => c13::run(&args, &mut rep),
-        "c19" => c19::run(&args, &mut rep),
-        other => {
-            eprintln!("unknown property {other}");
-            std::process::exit(2);
+    // a panic that escapes the monitor's own guards (e.g. out of a Drop of a library type) still yields a fragment
+    vcore::guarded(&mut rep, &args, |rep| {
+        match prop.as_str() {
+            "c01" => c01::run(&args, rep),
+            "c04" => c04::run(&args, rep),
+            "c08" => c08::run(&args, rep),
+            "c09" => c09::run(&args, rep),
+            "c10" => c10::run(&args, rep),
+            "c11" => c11::run(&args, rep),
+            "c12" => c12::run(&args, rep),
+            "c13" => c13::run(&args, rep),
+            "c19" => c19::run(&args, rep),
+            other => {
+                eprintln!("unknown property {other}");
+                std::process::exit(2);
+            }
         }
-    }
+    });
     rep.finish(args.get("out"));
 }
